@@ -147,6 +147,7 @@ func main() {
 		}
 		runCase(class, ops)
 	}
+	throughClass(r)
 	// exhaustive short histories over a boundary alphabet
 	alpha := []uint64{0, 1, 63, 64, 447, 448, 449, 511, 512, 513, 960, 1025}
 	depth := hv.Scale(3, 4)
